@@ -23,6 +23,7 @@ import AutosarVerif.Properties.C18
 import AutosarVerif.Properties.C02
 import AutosarVerif.Properties.C11
 import AutosarVerif.Model.Locks
+import AutosarVerif.Lemmas.NoPanic
 
 namespace AV.C12
 open AV.Locks
@@ -40,5 +41,29 @@ theorem C12_reentrant_write_rejected (l : Nat) (rest : Prog) :
 /-! non-vacuity: a well-bracketed downward program passes, the self-deadlock shape of finding #22 does not -/
 example : runsAlone [.acq 0 .read, .acq 1 .write, .rel 1 .write, .rel 0 .read] = true := by decide
 example : runsAlone [.acq 1 .write, .acq 1 .read, .rel 1 .read, .rel 1 .write] = false := by decide
+
+
+/-! ### added in the third session: statements proved in the lemma files, restated here by name
+(`type_of%` keeps the statement identical to the lemma; the signature is quoted in the comment) -/
+
+/-- **the panic sites of the modelled operations are unreachable** in every state reachable by a guarded history of the larger alphabet, for arbitrary arguments of the next request: `content[0] = …` on an empty content list in the reference-rewriting loops of `set_item_name` and `move_element_here` (a registered referrer always has content), `position(..).unwrap()` in `move_element_local` (the parent found by navigation lists the child), the last element of a navigation chain, the model index after `locate`
+`theorem runX_no_modelled_panic (hH : IdxHyp S V vOk) (hR : RefWF S) (hv32 : vOk &&& 0xFFFFFFFF = vOk) (ops : List OpX) (hops : ∀ op ∈ ops, OpXOk S vOk op) : (∀ x nm, ¬ RenamePanics S V (runX S V rootAttrs ops) x nm) ∧ (∀ p x pos?, ¬ MovePanics S V (runX S V rootAttrs ops) p x pos?) ∧ (∀ x, ¬ MoveUnwrapFails (runX S V rootAttrs ops) x) ∧ (∀ p x k cx cp sph spk, locate (runX S V rootAttrs ops) x = some (k, cx) → locate (runX S V rootAttrs ops) p = some (k, cp) → cx.dropLast.getLast? = some (sph, spk) → sph.id = p → ∃ i, (lastOf cp).2.childPos x 0 = some i) ∧ (∀ x k c, locate (runX S V rootAttrs ops) x = some (k, c) → c ≠ [] ∧ c.getLast? = some (lastOf c) ∧ (lastOf c).1.id = x ∧ k < (runX S V rootAttrs ops).models.length ∧ (runX S V rootAttrs ops).models[k]? = some ((runX S V rootAttrs ops).models[k]!))` -/
+theorem C12_no_modelled_panic_in_reachable_states : type_of% @AV.W.runX_no_modelled_panic := @AV.W.runX_no_modelled_panic
+
+/-- `theorem opRename_never_indexes_empty (w : World) (hg : GInv S vOk w) (x : Nat) (nm : Bytes) : ¬ RenamePanics S V w x nm` -/
+theorem C12_rename_never_indexes_empty_content : type_of% @AV.W.opRename_never_indexes_empty := @AV.W.opRename_never_indexes_empty
+
+/-- `theorem opMove_never_indexes_empty (w : World) (hg : GInv S vOk w) (p x : Nat) (pos? : Option Nat) : ¬ MovePanics S V w p x pos?` -/
+theorem C12_move_never_indexes_empty_content : type_of% @AV.W.opMove_never_indexes_empty := @AV.W.opMove_never_indexes_empty
+
+/-- `theorem opMove_unwrap_never_fails (w : World) (x : Nat) : ¬ MoveUnwrapFails w x` -/
+theorem C12_move_unwrap_never_fails : type_of% @AV.W.opMove_unwrap_never_fails := @AV.W.opMove_unwrap_never_fails
+
+/-- the iterations the driver runs for `dfs` / `dfsf` never index the position stack out of range
+`theorem dfsAll_never_oob (e : Hdr × Items) (maxDepth : Nat) : ¬ dfsAllMeetsOob e maxDepth` -/
+theorem C12_dfs_iterator_never_out_of_range : type_of% @AV.W.dfsAll_never_oob := @AV.W.dfsAll_never_oob
+
+/-- `theorem dfsFileAll_never_oob (f : Nat) (e : Hdr × Items) (maxDepth : Nat) : ¬ dfsFileAllMeetsOob f e maxDepth` -/
+theorem C12_file_iterator_never_out_of_range : type_of% @AV.W.dfsFileAll_never_oob := @AV.W.dfsFileAll_never_oob
 
 end AV.C12
